@@ -110,6 +110,10 @@ static bool body_par(const Case &c, Ctx &ctx)
     else ctx.cls("team=1-or-no-parallel-region");
     if (orderseed == 0) ctx.cls("order:identity"); else if (orderseed == 1) ctx.cls("order:reversed"); else ctx.cls("order:random-permutation");
     if (team > 16) ctx.cls("team:more-members-than-cores/iterations");
+    if (routine == 0 && c.v.size() > 3 + 7) { nt::Cfg q = nt::cfg_of(std::vector<uint64_t>(c.v.begin() + 3, c.v.end()));
+        uint64_t nb = q.nblock < 1 ? 1 : (q.nblock > q.ncols ? q.ncols : q.nblock);
+        if (q.dst != 1 && nb == 1 && nt::eff_phase(q.nphase, q.kind == nt::K_EXT ? q.le : q.ln) % 2 == 0 && q.ln != nt::SIZE0 && q.ln >= 2) ctx.cls("transform:in-place-bit-reversal-path");
+        if (q.ncols > 1024) ctx.cls("transform:ncols>1024"); }
     if (got != ref1) {
         size_t k = 0; while (k < got.size() && k < ref1.size() && got[k] == ref1[k]) k++;
         return ctx.fail(std::string(rn[routine]) + " team=" + std::to_string(team) + " orderseed=" + hx(orderseed) + ": output differs from the single-member execution at word " + std::to_string(k) + " (" + (k < got.size() ? hx(got[k]) : "-") + " vs " + (k < ref1.size() ? hx(ref1[k]) : "-") + ")");
@@ -133,6 +137,14 @@ static rc::Gen<std::vector<uint64_t>> gen_par(int routine)
         std::vector<uint64_t> v{(uint64_t)routine, (uint64_t)team, orderseed};
         std::vector<uint64_t> sub;
         if (routine == 0) { sub = *nt::gen_call(-1, 9, 5);
+            /* a quarter of the transform cases aim at the in-place bit reversal (even phase count, one block, in place): the only region whose
+               iterations swap rows through a per-iteration temporary; half of those on wide matrices (row temporaries depend on the column count) */
+            if (*g::irange(0, 3) == 0) {
+                sub[5] = *rc::gen::elementOf(std::vector<uint64_t>{2, 4, 6}); sub[6] = *rc::gen::elementOf(std::vector<uint64_t>{0, 1});
+                sub[7] = (sub[0] == nt::K_EXT) ? 0 : (uint64_t)(2 * *g::irange(0, 1));
+                if (sub[2] == nt::SIZE0 || sub[2] < 2) { sub[2] = 2 + (uint64_t)*g::irange(0, 3); sub[3] = sub[2] + (sub[0] == nt::K_EXT ? (uint64_t)*g::irange(0, 2) : 0); if (sub[1] < sub[2]) sub[1] = sub[2]; }
+                if (*g::irange(0, 1)) sub[4] = *rc::gen::elementOf(std::vector<uint64_t>{64, 65, 1024, 1025, 1100});
+            }
             /* wide matrices: keep the domain small (TSan cost) */
             if (sub[4] >= 64 && sub[2] > 4 && sub[2] != nt::SIZE0) { sub[3] -= (sub[2] - 4); sub[2] = 4; if (sub[1] < sub[2]) sub[1] = sub[2]; } if (sub[0] > 2) sub[0] = sub[0] % 3; if (sub[0] == nt::K_EXT && sub[7] == 2) sub[7] = 0; if (sub[0] == nt::K_EXT) sub[3] = std::max(sub[3], sub[2]); if (sub[0] == nt::K_EXT && sub[4] == 0) sub[4] = 1; }
         else if (routine == 1) { sub = {(uint64_t)*g::irange(0, ps::NVAR - 1), (uint64_t)*g::irange(0, 6), *g::range(0, 20), (uint64_t)*g::irange(1, 3), *g::range(1, 24), 0, *g::uni64()}; }
